@@ -22,6 +22,40 @@ def setup_repo_import():
     atexit.register(lambda: shutil.rmtree(cache, ignore_errors=True))
     return cache
 
+class Hang(Exception):
+    """the real code did not return within the deadline (an outcome like any other exception: harnesses turn it into
+    `CRASH:Hang`, which no model ever answers, so the input becomes the replay of a violation instead of stalling the check)"""
+
+_deadline_depth = [0]
+
+class deadline:
+    """`with common.deadline(20): call_into_real_code()` — raises Hang inside the call after `seconds` of wall time.
+    Main thread only (SIGALRM); nested uses keep the outermost deadline."""
+    def __init__(self, seconds=20.0):
+        self.seconds = seconds
+    def __enter__(self):
+        import signal
+        _deadline_depth[0] += 1
+        if _deadline_depth[0] == 1:
+            def on_alarm(signum, frame):
+                raise Hang(f'no result within {self.seconds} s')
+            try:
+                self.old = signal.signal(signal.SIGALRM, on_alarm)
+                signal.setitimer(signal.ITIMER_REAL, self.seconds)
+                self.armed = True
+            except ValueError:          # not the main thread
+                self.armed = False
+        else:
+            self.armed = False
+        return self
+    def __exit__(self, *a):
+        import signal
+        _deadline_depth[0] -= 1
+        if self.armed:
+            signal.setitimer(signal.ITIMER_REAL, 0)
+            signal.signal(signal.SIGALRM, self.old)
+        return False
+
 class Lock:
     def __enter__(self):
         self.f = open(os.path.join(LEAN_DIR, '.verif.lock'), 'w')
